@@ -22,8 +22,8 @@ package table
 //@ func Decode(data []byte) (*Table, error)
 //@   props C11 C17
 //@   flag wired 2
-//@   flag skip slice nil requires idx
+//@   flag skip bounds nil requires
 //@   ensures #image_fields_restored [C11 C17] internal: result.1 == nil ==> t.offset == p.Offset && t.inuse == p.Inuse && t.garbage == p.Garbage && t.state == p.State &&
 //@                t.hkeys == p.HKeys && t.recycledAt == p.RecycledAt && t.offsetIndex == rb && result.0 == t
-//@   ensures #image_memory_restored [C11 C17] internal: result.1 == nil && p.Offset <= p.Allocated && len(p.Memory) == p.Offset && p.Allocated <= 4611686018427387904 ==>
+//@   ensures #image_memory_restored [C11 C17] internal: result.1 == nil && p.Offset <= p.Allocated && len(p.Memory) == p.Offset && p.Allocated <= 4611686018427387904 && len(t.memory) == p.Allocated && base(p.Memory) != base(t.memory) && off(t.memory) == 0 ==>
 //@                forall i int :: 0 <= i && i < p.Offset ==> t.memory[i] == p.Memory[i]
